@@ -387,6 +387,24 @@ type nameCand struct {
 }
 
 func (fr *Frame) lookupName(name string, e *Env) (TV, bool) {
+	if rm := fr.c.P.renamesFor(fr.fn); rm != nil && !e.renamed {
+		// the contract was written against the baseline source: a local or parameter that was
+		// only renamed since (the declaration is otherwise identical) is looked up under its new name
+		base, suffix := name, ""
+		if strings.HasSuffix(name, "0") && len(name) > 1 {
+			if _, ok := rm[name[:len(name)-1]]; ok {
+				base, suffix = name[:len(name)-1], "0"
+			}
+		}
+		if nn, ok := rm[base]; ok {
+			ne := *e
+			ne.renamed = true
+			if tv, found := fr.lookupName(nn+suffix, &ne); found {
+				fr.c.assumed["contract names resolved through a pure rename of locals detected against /verif/baseline_src: "+base+" -> "+nn+" in "+displayName(fr.fn)] = true
+				return tv, true
+			}
+		}
+	}
 	fn := fr.fn
 	entry := false
 	base := name
